@@ -171,6 +171,11 @@ pub enum Op {
     Scan,
     /// close the database while the held iterator is still alive, scan the iterator, drop it, reopen
     CloseHoldingIter,
+    /// close the database while the held iterator is still alive and open it again *at once*: either
+    /// the open is refused (the closed handle's iterator still uses the directory) or the new owner
+    /// works - it overwrites every key, flushes and compacts everything - without taking anything
+    /// away from the old iterator, which is scanned afterwards
+    ReopenUnderLiveIter,
 }
 
 impl Op {
@@ -212,6 +217,7 @@ impl Op {
             Op::Desc(d) => format!("desc{}", d),
             Op::Scan => "scan".into(),
             Op::CloseHoldingIter => "close-holding-iterator".into(),
+            Op::ReopenUnderLiveIter => "close+reopen-under-live-iterator".into(),
         }
     }
 }
@@ -604,7 +610,7 @@ impl World {
             Op::Iter => self.iter.is_none(),
             Op::DropIter => self.iter.is_some(),
             Op::Reopen(_) => self.snaps.is_empty() && self.iter.is_none(),
-            Op::CloseHoldingIter => self.snaps.is_empty() && self.iter.is_some(),
+            Op::CloseHoldingIter | Op::ReopenUnderLiveIter => self.snaps.is_empty() && self.iter.is_some(),
             _ => true,
         }
     }
@@ -811,6 +817,46 @@ impl World {
                 }
                 self.iter = None;
                 self.open()?;
+            }
+            Op::ReopenUnderLiveIter => {
+                self.db = None;
+                let opened = DB::open(db_options(&self.fs, &self.cfg));
+                let refused = opened.is_err();
+                if let Ok(db) = opened {
+                    self.db = Some(db);
+                    // the new owner rewrites everything and lets the garbage collection run
+                    for k in 0..self.keys.len() {
+                        self.stamp += 1;
+                        let key = self.keys[k].clone();
+                        let val = value_for(self.stamp, k as u8, 0, &self.cfg);
+                        let r = self.db().put(WriteOptions::default(), key.clone(), val.clone());
+                        self.write_result("put", r)?;
+                        self.model.insert(key, val);
+                    }
+                    let z = flush_key();
+                    self.db().compact_range(Some(&z[..])..Some(&z[..]));
+                    self.db().compact_range(None..None);
+                    self.quiesce();
+                }
+                if let Some((it, frozen)) = self.iter.as_mut() {
+                    let want: Vec<(Vec<u8>, Vec<u8>)> = frozen.iter().map(|(k, v)| (k.clone(), v.clone())).collect();
+                    let got = scan_forward(it).map_err(|e| {
+                        Violation::new(
+                            "C11.live_deleted",
+                            format!("the iterator of a closed handle fails after the directory was opened again and compacted by a new owner (the open was {}): {}", if refused { "refused" } else { "accepted" }, e),
+                        )
+                    })?;
+                    if got != want {
+                        return Err(Violation::new(
+                            "C11.live_deleted",
+                            format!("the iterator of a closed handle no longer yields its frozen state after the directory was opened again and compacted by a new owner (the open was {})", if refused { "refused" } else { "accepted" }),
+                        ));
+                    }
+                }
+                self.iter = None;
+                if self.db.is_none() {
+                    self.open()?;
+                }
             }
         }
         if self.eager && !matches!(op, Op::Quiesce) {
